@@ -1,45 +1,38 @@
 //! Trace minimisation: delta debugging over steps while the same oracle of the same property fires.
 
-use crate::sim::{Sim, Violation};
-use crate::steps::*;
+use crate::engine::Engine;
+use crate::sim::Violation;
 
-pub fn fails(trace: &Trace, prop: &str, oracle: &str) -> Option<Violation> {
-    let s = Sim::run(trace, false);
-    if s.harness_error.is_some() {
+pub fn fails<E: Engine>(trace: &E::T, prop: &str, oracle: &str) -> Option<Violation> {
+    let o = E::run(trace, false, false);
+    if o.harness_error.is_some() {
         return None;
     }
-    s.violations.into_iter().find(|v| v.prop == prop && v.oracle == oracle)
+    o.violations.into_iter().find(|v| v.prop == prop && v.oracle == oracle)
 }
 
-pub fn shrink(trace: &Trace, prop: &str, oracle: &str, budget: usize) -> (Trace, usize) {
+pub fn shrink<E: Engine>(trace: &E::T, prop: &str, oracle: &str, budget: usize) -> (E::T, usize) {
     let mut best = trace.clone();
     let mut runs = 0usize;
-    // Cut everything after the violating step (keep Heal if the oracle is an end-of-run one).
-    if let Some(v) = fails(&best, prop, oracle) {
-        let cut = (v.step + 1).min(best.steps.len());
-        let mut t = best.clone();
-        t.steps.truncate(cut);
-        if !matches!(t.steps.last(), Some(Step::Heal)) && matches!(trace.steps.get(v.step), Some(Step::Heal)) {
-            t.steps.push(Step::Heal);
-        }
+    if let Some(v) = fails::<E>(&best, prop, oracle) {
+        let t = E::cut_after(&best, v.step);
         runs += 1;
-        if fails(&t, prop, oracle).is_some() {
+        if E::len(&t) < E::len(&best) && fails::<E>(&t, prop, oracle).is_some() {
             best = t;
         }
     }
     // ddmin
     let mut n = 2usize;
-    while best.steps.len() >= 2 && runs < budget {
-        let len = best.steps.len();
+    while E::len(&best) >= 2 && runs < budget {
+        let len = E::len(&best);
         let chunk = len.div_ceil(n);
         let mut reduced = false;
         let mut start = 0;
         while start < len && runs < budget {
             let end = (start + chunk).min(len);
-            let mut t = best.clone();
-            t.steps.drain(start..end);
+            let t = E::without(&best, start, end);
             runs += 1;
-            if !t.steps.is_empty() && fails(&t, prop, oracle).is_some() {
+            if E::len(&t) > 0 && fails::<E>(&t, prop, oracle).is_some() {
                 best = t;
                 n = (n - 1).max(2);
                 reduced = true;
@@ -54,81 +47,13 @@ pub fn shrink(trace: &Trace, prop: &str, oracle: &str, budget: usize) -> (Trace,
             n = (n * 2).min(len);
         }
     }
-    // Simplify the configuration: fewer clients / slots, plain parameters.
+    // Simplify the configuration and parameters.
     let mut changed = true;
     while changed && runs < budget {
         changed = false;
-        let mut cands: Vec<Trace> = vec![];
-        let p = &best.profile;
-        if p.clients > 1 {
-            let mut t = best.clone();
-            t.profile.clients -= 1;
-            cands.push(t);
-        }
-        if p.app.track {
-            let mut t = best.clone();
-            t.profile.app.track = false;
-            cands.push(t);
-        }
-        if p.app.sync_related {
-            let mut t = best.clone();
-            t.profile.app.sync_related = false;
-            cands.push(t);
-        }
-        if p.max_size != [1200; 3] {
-            let mut t = best.clone();
-            t.profile.max_size = [1200; 3];
-            cands.push(t);
-        }
-        if p.app.timeout_ms != 10_000 {
-            let mut t = best.clone();
-            t.profile.app.timeout_ms = 10_000;
-            cands.push(t);
-        }
-        if p.server_role != crate::pool::Role::ServerOnly {
-            let mut t = best.clone();
-            t.profile.server_role = crate::pool::Role::ServerOnly;
-            cands.push(t);
-        }
-        if p.client_role != crate::pool::Role::ClientOnly {
-            let mut t = best.clone();
-            t.profile.client_role = crate::pool::Role::ClientOnly;
-            cands.push(t);
-        }
-        if p.app.tick_policy != 0 {
-            let mut t = best.clone();
-            t.profile.app.tick_policy = 0;
-            cands.push(t);
-        }
-        if p.app.auth != 1 {
-            let mut t = best.clone();
-            t.profile.app.auth = 1;
-            cands.push(t);
-        }
-        // dt -> 16 ms, pick -> 0
-        {
-            let mut t = best.clone();
-            let mut any = false;
-            for s in t.steps.iter_mut() {
-                match s {
-                    Step::ServerFrame { dt_ms, .. } | Step::ClientFrame { dt_ms, .. } if *dt_ms != 16 => {
-                        *dt_ms = 16;
-                        any = true;
-                    }
-                    Step::Deliver { pick, .. } | Step::Drop { pick, .. } if *pick != 0 => {
-                        *pick = 0;
-                        any = true;
-                    }
-                    _ => {}
-                }
-            }
-            if any {
-                cands.push(t);
-            }
-        }
-        for t in cands {
+        for t in E::simplify(&best) {
             runs += 1;
-            if fails(&t, prop, oracle).is_some() {
+            if fails::<E>(&t, prop, oracle).is_some() {
                 best = t;
                 changed = true;
                 break;
@@ -137,11 +62,10 @@ pub fn shrink(trace: &Trace, prop: &str, oracle: &str, budget: usize) -> (Trace,
     }
     // Final single-step pass.
     let mut i = 0;
-    while i < best.steps.len() && runs < budget {
-        let mut t = best.clone();
-        t.steps.remove(i);
+    while i < E::len(&best) && runs < budget {
+        let t = E::without(&best, i, i + 1);
         runs += 1;
-        if !t.steps.is_empty() && fails(&t, prop, oracle).is_some() {
+        if E::len(&t) > 0 && fails::<E>(&t, prop, oracle).is_some() {
             best = t;
         } else {
             i += 1;
